@@ -31,6 +31,24 @@ def run(prop, tier, seed):
     except build.BuildError as ex:
         v.inconclusive.append('driver does not build against the current tree: %s' % str(ex)[-1500:])
         return v.finish()
+    # thorough tier: the same random workload also at the suite's language level (C++14) and, for the
+    # memory-safety property, under a second compiler's ASan (different red zones, use-after-scope)
+    extra_cfg = []
+    if tier == 'thorough':
+        extra_cfg.append(('asan14', 0.15))
+        if prop == 'C14':
+            extra_cfg.append(('clang-asan', 0.3))
+    configs_run = {'asan': res.evaluations}
+    for cfg, frac in extra_cfg:
+        try:
+            r2, _ = engine.run_plan(prop, [(('random', spec['profile']), int(n * frac), 128)], seed + 7919, config=cfg)
+        except build.BuildError as ex:
+            v.inconclusive.append('driver does not build in configuration %s: %s' % (cfg, str(ex)[-800:]))
+            continue
+        for x in r2.violations:
+            x['key'] = '%s|%s' % (cfg, x['key'])
+        configs_run[cfg] = r2.evaluations
+        res.merge(r2)
     # literal witnesses of repaired defects: ordinary regression scenarios of the owning properties
     exe, _ = engine.build_driver('asan')
     nprobe = 0
@@ -53,6 +71,10 @@ def run(prop, tier, seed):
             v.inconclusive += r3.inconclusive
             if r3.violations:
                 v.known_hits.append('%s: %s [observed: %s]' % (kf['key'], pb['what'][:160], r3.violations[0]['key']))
+    nscoped = 0
+    if prop in ('C01', 'C04', 'C07', 'C13'):
+        from . import scoped
+        nscoped = scoped.run(v, prop)
     bykey = {}
     for x in res.violations:
         cur = bykey.get(x['key'])
@@ -90,11 +112,11 @@ def run(prop, tier, seed):
         triggers={k: len(s) for k, s in sorted(res.trig_hashes.items())},
         scenarios_cut_at_dont_care=res.cuts, cut_reasons=res.cut_reasons,
         mismatches_owned_by_other_properties=res.foreign,
-        regression_probes_run=nprobe, exhaustive=any(k.startswith('exh:') for k in res.by_spec),
+        regression_probes_run=nprobe, scoped_form_scene_lines_compared=nscoped, exhaustive=any(k.startswith('exh:') for k in res.by_spec),
         exhaustive_parts={k[4:]: v for k, v in res.by_spec.items() if k.startswith('exh:')},
         random_histories={k[7:]: v for k, v in res.by_spec.items() if k.startswith('random:')},
         exhaustive_note='each listed enumerator was run to completion (every history of its scope, see vlib/exh.py); the random histories are in addition',
-        sanitizers='ASan+UBSan+LSan, TROMPELOEIL_SANITY_CHECKS assertions live')
+        sanitizers='ASan+UBSan+LSan, TROMPELOEIL_SANITY_CHECKS assertions live', scenarios_by_build_configuration=configs_run)
     v.assumptions = ['reference model vlib/model.py encodes the property statements', 'g++ 12, libstdc++, sanitizer runtimes']
     return v.finish()
 
